@@ -227,6 +227,8 @@ def run(ctx, rep):
     c03.recovery_keeps_range(ctx, rep, "C11")
     c04.parse_error_ranges(ctx, rep, "C11")
     c03.append_only_rule(ctx, rep, "C11")
+    import pipeline
+    pipeline.rule(ctx, rep, "C11", [])
     rep.assumptions += ["TB-1 rustc MIR", "TB-3 std: HashMap::insert overwrites, min is unique on distinct totally ordered elements, sort_by_key is stable",
                         "TB-2 order of syntax diagnostics of tree-less files is lalrpop's emission order (NOT decided)",
                         "Annotation.key_values is compared with HashMap's order-insensitive ==; serialised text is outside this property"]
